@@ -567,6 +567,9 @@ func finish(ck *Check, tier string, seed int64, m *Result, start time.Time) int 
 		ev["broken"] = m.Broken
 	}
 	edir := filepath.Join(VerifDir(), "evidence")
+	if d := os.Getenv("VERIF_EVIDENCE_DIR"); d != "" {
+		edir = d // runs against a deliberately changed tree must not overwrite the committed evidence
+	}
 	_ = os.MkdirAll(edir, 0o755)
 	b, _ := json.MarshalIndent(ev, "", " ")
 	_ = os.WriteFile(filepath.Join(edir, ck.ID+".json"), b, 0o644)
